@@ -368,7 +368,7 @@ def run(ctx, res):
         for s in trace:
             for pt, _k in s["fired"]:
                 res.count("corr_reset_handled_at_%s" % pt)
-    mism, errs = common.coq_run_cases("C07", "Model.Outgoing Model.Replication", "run_C06",
+    mism, errs = common.coq_run_cases(pC06.gen_tag("C07"), "Model.Outgoing Model.Replication", "run_C06",
                                       "(bool * tcfg * (list peer * list note) * list top)", coq_cases, shard=250)
     res.errors += errs
     res.traces_validated = len(coq_cases) - len(mism)
